@@ -23,7 +23,7 @@
    States of the Python that the old model lacks:
    * a property DECLARED in the metadata but ABSENT from node_props: the subscript raises KeyError (decl: Absent);
    * a missing mask whose length differs from the array it indexes: numpy boolean indexing raises IndexError
-     (mask_filter returns None);
+     (mask_filter returns None), unless the mask is empty: then nothing is selected;
    * track_node_props None / a dict that holds the key "tracklet" and/or "lineage" (e_track);
    * values shorter / longer than the id array with no mask: zip(strict=False) truncates (combine).
    Model only. *)
@@ -94,12 +94,17 @@ Definition fault_eqb (a b : fault) : bool :=
   | _, _ => false
   end.
 
-(* values[np.logical_not(missing)]: numpy refuses a boolean index of another length (None = IndexError) *)
-Definition mask_filter {A} (miss : option (list bool)) (rows : list A) : option (list A) :=
+(* values[np.logical_not(missing)]: numpy refuses a boolean index whose length differs from the indexed axis (IndexError)
+   -- except an EMPTY boolean index, which it accepts for an array of any length and which selects nothing
+   (np.arange(3)[np.zeros(0, dtype=bool)] is the empty array).  fits: the indexing does not raise. *)
+Definition fits {A} (miss : option (list bool)) (rows : list A) : bool :=
   match miss with
-  | None => Some rows
-  | Some m => if Nat.eqb (List.length m) (List.length rows) then Some (keep_present m rows) else None
+  | None => true
+  | Some m => Nat.eqb (List.length m) (List.length rows) || Nat.eqb (List.length m) 0
   end.
+(* None = IndexError; otherwise the selected rows (GraphVal.present: keep_present [] rows = []) *)
+Definition mask_filter {A} (miss : option (list bool)) (rows : list A) : option (list A) :=
+  if fits miss rows then Some (present miss rows) else None.
 
 (* _annotated_nodes: node ids and track ids restricted to the entries not flagged missing (ids are indexed first);
    the pairs are what zip(nodes, tracklets, strict=False) of the validators iterates over *)
@@ -205,9 +210,7 @@ Definition lift_cfg (cfg : vconfig) (lineage tracklet : bool) : vconfig5 :=
   {| c5_graph := c_graph cfg; c5_sphere := c_sphere cfg; c5_ellipsoid := c_ellipsoid cfg;
      c5_lineage := lineage; c5_tracklet := tracklet |}.
 
-(* every mask has the length of the array it indexes (what the old model assumes silently) *)
-Definition fits {A} (miss : option (list bool)) (rows : list A) : bool :=
-  match miss with None => true | Some m => Nat.eqb (List.length m) (List.length rows) end.
+(* every mask can be applied to the array it indexes (what the old model assumes silently) *)
 Definition masks_fit (d : vdata) : bool :=
   match d_sphere d with Some (_, rs, ms) => fits ms rs | None => true end &&
   match d_ellipsoid d with Some (_, _, _, ms, mi) => fits mi ms | None => true end.
@@ -227,5 +230,6 @@ Fixpoint upd_nth {A} (i : nat) (v : A) (l : list A) : list A :=
   | _ :: r, O => v :: r
   | x :: r, S i' => x :: upd_nth i' v r
   end.
+(* is position i dropped by the mask (an empty mask drops every position, see fits) *)
 Definition missing_at (miss : option (list bool)) (i : nat) : bool :=
-  match miss with None => false | Some m => nth i m false end.
+  match miss with None => false | Some [] => true | Some m => nth i m false end.
